@@ -65,13 +65,26 @@ def strategy(tier):
                 ops.append(['detach', i, draw(st.integers(0, 5))])
         # nouid: anonymous events with one delay value, so that distinct events can be equal
         return {'specs': specs, 'ops': ops, 'share': draw(st.floats(0, 1)) < 0.3,
-                'nouid': draw(st.integers(0, 3)) == 0}
+                'nouid': draw(st.integers(0, 3)) == 0,
+                'notify_names': draw(st.sampled_from([0, 0, 1, 2]))}
     return cases()
 
 
 def oracle(case):
     from ..cli import sha
     from sismic.model import Event, InternalEvent
+    if case.get('notify_names'):
+        # user meta-events whose names are words or fragments of the library's own meta-event
+        # names ('event sent', ...): they are still never forwarded
+        import copy
+        case = copy.deepcopy(case)
+        ren = {'n0': 'sent', 'n1': 'e'} if case['notify_names'] == 1 else {'n0': 'event', 'n1': ''}
+        for sp in case['specs']:
+            for o in sp['states'] + sp['transitions']:
+                for key in ('sends', 'sends_entry', 'sends_exit'):
+                    for s_ in o.get(key) or []:
+                        if s_.get('kind') == 'notify':
+                            s_['name'] = ren.get(s_['name'], s_['name'])
     if case.get('nouid'):
         import copy
         case = copy.deepcopy(case)
